@@ -206,7 +206,11 @@ func ConstToAst(val constant.Value) ast.Expr {
 	case constant.Int:
 		return &ast.BasicLit{Kind: token.INT, Value: val.ExactString()}
 	case constant.Float:
-		return &ast.BasicLit{Kind: token.FLOAT, Value: val.String()}
+		// Note that val.String gives a short approximation for humans, like %.6g.
+		// The shortest decimal which gives the same float64 is exact for the
+		// constants of the float types, which are representable in them.
+		f, _ := constant.Float64Val(val)
+		return &ast.BasicLit{Kind: token.FLOAT, Value: strconv.FormatFloat(f, 'g', -1, 64)}
 	case constant.Complex:
 		return CallExprByName("complex", ConstToAst(constant.Real(val)), ConstToAst(constant.Imag(val)))
 	default:
